@@ -1,40 +1,50 @@
-mod c06;
+mod front;
 mod c08;
 mod c09;
-mod c10;
-mod c11;
 mod c12;
-mod c13;
-mod c14;
-mod c15;
-mod c16;
-mod c17;
-mod c23;
-mod c26;
-mod c28;
-mod c29;
 
 fn main() {
     let args: Vec<String> = std::env::args().skip(1).collect();
     let id = args.first().cloned().unwrap_or_default();
+    if id == "dump-tokens" {
+        // debugging aid: vc-front dump-tokens FILE
+        let src = std::fs::read_to_string(&args[1]).unwrap();
+        {
+            use veryl_parser::veryl_walker::VerylWalker;
+            if let Ok(p) = veryl_parser::Parser::parse(&src, &std::path::Path::new("x.veryl")) {
+                let mut c = veryl_parser::token_collector::TokenCollector::new(true);
+                c.veryl(&p.veryl);
+                if std::env::var("DUMP").is_ok() {
+                    for t in &c.tokens {
+                        println!("{:?} line={} col={} pos={} len={}", t.to_string(), t.line, t.column, t.pos, t.length);
+                    }
+                }
+            }
+        }
+        match c12::check_positions(&src) {
+            Ok(Some(r)) => println!("ok: {} tokens {} comments", r.tokens, r.comments),
+            Ok(None) => println!("does not parse"),
+            Err((s, m)) => println!("FAIL {s}: {m}"),
+        }
+        return;
+    }
+    if id == "fmt" {
+        // debugging aid: vc-front fmt FILE [align] -> prints fmt(x) then fmt(fmt(x))
+        let src = std::fs::read_to_string(&args[1]).unwrap();
+        let mut o = front::FmtOpts::default();
+        o.vertical_align = args.get(2).map(|s| s == "align").unwrap_or(false);
+        let md = front::metadata(&o);
+        let f1 = front::format_text(&src, &md, "a.veryl").expect("parse");
+        let f2 = front::format_text(&f1, &md, "a.veryl").expect("parse2");
+        println!("--- fmt1\n{f1:?}\n--- fmt2\n{f2:?}\n--- equal={}", f1 == f2);
+        return;
+    }
     vcore::quiet_panics();
     let ctx = vcore::Ctx::new(&id, &args[1.min(args.len())..]);
     match id.as_str() {
-        "C06" => c06::run(&ctx),
         "C08" => c08::run(&ctx),
         "C09" => c09::run(&ctx),
-        "C10" => c10::run(&ctx),
-        "C11" => c11::run(&ctx),
         "C12" => c12::run(&ctx),
-        "C13" => c13::run(&ctx),
-        "C14" => c14::run(&ctx),
-        "C15" => c15::run(&ctx),
-        "C16" => c16::run(&ctx),
-        "C17" => c17::run(&ctx),
-        "C23" => c23::run(&ctx),
-        "C26" => c26::run(&ctx),
-        "C28" => c28::run(&ctx),
-        "C29" => c29::run(&ctx),
         _ => {
             eprintln!("unknown property id {id:?}");
             std::process::exit(2);
